@@ -1,17 +1,30 @@
 //! Protocols of C14, implementation side, in-process:
 //!
 //! `lex <hex>`   same as C05: the real token producer's kinds, texts and spans (hook H6).
-//! `walk <hex>`  hook-free walk over the `Module<()>` returned by
-//!               `parse_source_module_from_text`: a pre-order list of located nodes
-//!               `<depth>:<kind>:<l0>.<c0>-<l1>.<c1>[:<hexname>]` separated by `;`, covering imports
-//!               (members, module path), toplevels (name, type parameters, members: name, type
-//!               parameters, parameters with annotation, return type, body) and the locations of
-//!               every reported error; prefix `syn=<n> `.  A panic gives `panic <hexmsg>`.
-use samlang_ast::Location;
-use samlang_ast::source::{Id, Toplevel, annotation};
+//! `walk <hex>`  hook-free walk over EVERY located node of the `Module<()>` returned by
+//!               `parse_source_module_from_text`: a pre-order list
+//!               `<depth>:<kind>:<l0>.<c0>-<l1>.<c1>[:<hexname>]` separated by `;`, prefix `syn=<n> `.
+//!               Kinds: import, modpath, toplevel, tparams, tparam, bound, extends, super, typedef,
+//!               field, variant, member, params, param, ret, body, name (every `Id`), the 13
+//!               expression forms `E.*`, `args`, `case`, `lparams`, `lparam`, `S.Let`, the 6 pattern
+//!               forms `P.*` (+ `pfield`), the annotation forms `T.*` (+ `targs`, `tlist`), `error`.
+//!               Children are listed in source order.  A panic gives `panic <hexmsg>`.
+//! `svc <module> <hex>`  the module is put into a `ServerState` that holds std + every tests/*.sam;
+//!               for every identifier position of the walk the LSP queries the property names are
+//!               run: `def`, `refs`, `hover` (+ `fold`, `ca` code-action edits at every error, and
+//!               `rename` at every local identifier).  Answer: `errs=<n> syn=<n> <item>;...` with
+//!               `def@l.c:<hexname>=<loc>|none`, `refs@l.c:<hexname>=<loc>,...`, `hover@l.c=<loc>|none`,
+//!               `fold=<loc>,...`, `ca@<span>=<loc>,...`, `rename@l.c=<ok|none|syn>`; a `<loc>` is
+//!               `<module>/<span>/<in|out>/<hex of the text it covers (<= 40 bytes, one line) or ->`.
+use samlang_ast::source::{
+  Id, Module, Toplevel, TypeDefinition, annotation, expr, pattern,
+};
+use samlang_ast::{Location, Position};
 use samlang_errors::ErrorSet;
 use samlang_heap::{Heap, ModuleReference};
+use samlang_services::server_state::ServerState;
 use samverif_harness::util::*;
+use std::collections::HashMap;
 use std::panic::{AssertUnwindSafe, catch_unwind};
 
 fn span(l: &Location) -> String {
@@ -21,86 +34,449 @@ fn span(l: &Location) -> String {
 struct Out<'a> {
   heap: &'a Heap,
   items: Vec<String>,
+  /// (position, name, is local variable use/binder) of every identifier seen
+  idents: Vec<(Position, String, bool)>,
 }
 
 impl Out<'_> {
   fn node(&mut self, depth: usize, kind: &str, l: &Location) {
     self.items.push(format!("{depth}:{kind}:{}", span(l)));
   }
-  fn id(&mut self, depth: usize, kind: &str, id: &Id) {
-    self.items.push(format!(
-      "{depth}:{kind}:{}:{}",
-      span(&id.loc),
-      hex(id.name.as_str(self.heap).as_bytes())
-    ));
+  fn named(&mut self, depth: usize, kind: &str, l: &Location, name: &str, local: bool) {
+    self.items.push(format!("{depth}:{kind}:{}:{}", span(l), hex(name.as_bytes())));
+    self.idents.push((l.start, name.to_string(), local));
   }
-  fn tparams(&mut self, depth: usize, tp: Option<&annotation::TypeParameters>) {
+  fn id(&mut self, depth: usize, id: &Id, local: bool) {
+    let name = id.name.as_str(self.heap).to_string();
+    self.named(depth, "name", &id.loc, &name, local);
+  }
+
+  fn targs(&mut self, d: usize, ta: Option<&annotation::TypeArguments>) {
+    if let Some(ta) = ta {
+      self.node(d, "targs", &ta.location);
+      for a in &ta.arguments {
+        self.annot(d + 1, a);
+      }
+    }
+  }
+
+  fn annot_id(&mut self, d: usize, kind: &str, a: &annotation::Id) {
+    self.node(d, kind, &a.location);
+    self.id(d + 1, &a.id, false);
+    self.targs(d + 1, a.type_arguments.as_ref());
+  }
+
+  fn annot(&mut self, d: usize, a: &annotation::T) {
+    match a {
+      annotation::T::Primitive(l, _, _) => self.node(d, "T.Primitive", l),
+      annotation::T::Id(a) => self.annot_id(d, "T.Id", a),
+      annotation::T::Generic(l, id) => {
+        self.node(d, "T.Generic", l);
+        self.id(d + 1, id, false);
+      }
+      annotation::T::Fn(f) => {
+        self.node(d, "T.Fn", &f.location);
+        self.node(d + 1, "tlist", &f.parameters.location);
+        for p in &f.parameters.annotations {
+          self.annot(d + 2, p);
+        }
+        self.annot(d + 1, &f.return_type);
+      }
+    }
+  }
+
+  fn tparams(&mut self, d: usize, tp: Option<&annotation::TypeParameters>) {
     if let Some(tp) = tp {
-      self.node(depth, "tparams", &tp.location);
+      self.node(d, "tparams", &tp.location);
       for p in &tp.parameters {
-        self.node(depth + 1, "tparam", &p.loc);
-        self.id(depth + 2, "name", &p.name);
+        self.node(d + 1, "tparam", &p.loc);
+        self.id(d + 2, &p.name, false);
         if let Some(b) = &p.bound {
-          self.node(depth + 2, "bound", &b.location);
+          self.annot_id(d + 2, "bound", b);
+        }
+      }
+    }
+  }
+
+  fn tuple_pattern(&mut self, d: usize, t: &pattern::TuplePattern<()>) {
+    self.node(d, "P.Tuple", &t.location);
+    for e in &t.elements {
+      self.pattern(d + 1, &e.pattern);
+    }
+  }
+
+  fn pattern(&mut self, d: usize, p: &pattern::MatchingPattern<()>) {
+    match p {
+      pattern::MatchingPattern::Tuple(t) => self.tuple_pattern(d, t),
+      pattern::MatchingPattern::Object { location, elements, .. } => {
+        self.node(d, "P.Object", location);
+        for e in elements {
+          self.node(d + 1, "pfield", &e.loc);
+          self.id(d + 2, &e.field_name, e.shorthand);
+          if !e.shorthand {
+            self.pattern(d + 2, &e.pattern);
+          }
+        }
+      }
+      pattern::MatchingPattern::Variant(v) => {
+        self.node(d, "P.Variant", &v.loc);
+        self.id(d + 1, &v.tag, false);
+        if let Some(t) = &v.data_variables {
+          self.tuple_pattern(d + 1, t);
+        }
+      }
+      pattern::MatchingPattern::Id(id, _) => {
+        self.node(d, "P.Id", &id.loc);
+        self.id(d + 1, id, true);
+      }
+      pattern::MatchingPattern::Wildcard { location, .. } => self.node(d, "P.Wildcard", location),
+      pattern::MatchingPattern::Or { location, patterns } => {
+        self.node(d, "P.Or", location);
+        for p in patterns {
+          self.pattern(d + 1, p);
+        }
+      }
+    }
+  }
+
+  fn block(&mut self, d: usize, b: &expr::Block<()>) {
+    self.node(d, "E.Block", &b.common.loc);
+    for s in &b.statements {
+      match s {
+        expr::Statement::Declaration(s) => {
+          self.node(d + 1, "S.Let", &s.loc);
+          self.pattern(d + 2, &s.pattern);
+          if let Some(a) = &s.annotation {
+            self.annot(d + 2, a);
+          }
+          self.expr(d + 2, &s.assigned_expression);
+        }
+        expr::Statement::Expression(e) => self.expr(d + 1, e),
+      }
+    }
+    if let Some(e) = &b.expression {
+      self.expr(d + 1, e);
+    }
+  }
+
+  fn if_else(&mut self, d: usize, e: &expr::IfElse<()>) {
+    self.node(d, "E.IfElse", &e.common.loc);
+    match e.condition.as_ref() {
+      expr::IfElseCondition::Expression(c) => self.expr(d + 1, c),
+      expr::IfElseCondition::Guard(p, c) => {
+        self.pattern(d + 1, p);
+        self.expr(d + 1, c);
+      }
+    }
+    self.block(d + 1, &e.e1);
+    match e.e2.as_ref() {
+      expr::IfElseOrBlock::IfElse(e) => self.if_else(d + 1, e),
+      expr::IfElseOrBlock::Block(b) => self.block(d + 1, b),
+    }
+  }
+
+  fn expr(&mut self, d: usize, e: &expr::E<()>) {
+    match e {
+      expr::E::Literal(c, _) => self.node(d, "E.Literal", &c.loc),
+      expr::E::LocalId(c, id) => {
+        let name = id.name.as_str(self.heap).to_string();
+        self.named(d, "E.LocalId", &c.loc, &name, true);
+      }
+      expr::E::ClassId(c, _, id) => {
+        let name = id.name.as_str(self.heap).to_string();
+        self.named(d, "E.ClassId", &c.loc, &name, false);
+      }
+      expr::E::Tuple(c, l) => {
+        self.node(d, "E.Tuple", &c.loc);
+        self.node(d + 1, "args", &l.loc);
+        for x in &l.expressions {
+          self.expr(d + 2, x);
+        }
+      }
+      expr::E::FieldAccess(f) => {
+        self.node(d, "E.FieldAccess", &f.common.loc);
+        self.expr(d + 1, &f.object);
+        self.id(d + 1, &f.field_name, false);
+        self.targs(d + 1, f.explicit_type_arguments.as_ref());
+      }
+      expr::E::MethodAccess(f) => {
+        self.node(d, "E.MethodAccess", &f.common.loc);
+        self.expr(d + 1, &f.object);
+        self.id(d + 1, &f.method_name, false);
+        self.targs(d + 1, f.explicit_type_arguments.as_ref());
+      }
+      expr::E::Unary(u) => {
+        self.node(d, "E.Unary", &u.common.loc);
+        self.expr(d + 1, &u.argument);
+      }
+      expr::E::Call(c) => {
+        self.node(d, "E.Call", &c.common.loc);
+        self.expr(d + 1, &c.callee);
+        self.node(d + 1, "args", &c.arguments.loc);
+        for x in &c.arguments.expressions {
+          self.expr(d + 2, x);
+        }
+      }
+      expr::E::Binary(b) => {
+        self.node(d, "E.Binary", &b.common.loc);
+        self.expr(d + 1, &b.e1);
+        self.expr(d + 1, &b.e2);
+      }
+      expr::E::IfElse(e) => self.if_else(d, e),
+      expr::E::Match(m) => {
+        self.node(d, "E.Match", &m.common.loc);
+        self.expr(d + 1, &m.matched);
+        for c in &m.cases {
+          self.node(d + 1, "case", &c.loc);
+          self.pattern(d + 2, &c.pattern);
+          self.expr(d + 2, &c.body);
+        }
+      }
+      expr::E::Lambda(l) => {
+        self.node(d, "E.Lambda", &l.common.loc);
+        self.node(d + 1, "lparams", &l.parameters.loc);
+        for p in &l.parameters.parameters {
+          let loc = match &p.annotation {
+            Some(a) => p.name.loc.union(&a.location()),
+            None => p.name.loc,
+          };
+          self.node(d + 2, "lparam", &loc);
+          self.id(d + 3, &p.name, true);
+          if let Some(a) = &p.annotation {
+            self.annot(d + 3, a);
+          }
+        }
+        self.expr(d + 1, &l.body);
+      }
+      expr::E::Block(b) => self.block(d, b),
+    }
+  }
+
+  fn module(&mut self, module: &Module<()>) {
+    for imp in &module.imports {
+      self.node(0, "import", &imp.loc);
+      for m in &imp.imported_members {
+        self.id(1, m, false);
+      }
+      self.node(1, "modpath", &imp.imported_module_loc);
+    }
+    for t in &module.toplevels {
+      self.node(0, "toplevel", &t.loc());
+      self.id(1, t.name(), false);
+      self.tparams(1, t.type_parameters());
+      if let Some(td) = t.type_definition() {
+        self.node(1, "typedef", td.loc());
+        match td {
+          TypeDefinition::Struct { fields, .. } => {
+            for f in fields {
+              self.node(2, "field", &f.name.loc.union(&f.annotation.location()));
+              self.id(3, &f.name, false);
+              self.annot(3, &f.annotation);
+            }
+          }
+          TypeDefinition::Enum { variants, .. } => {
+            for v in variants {
+              let loc = match &v.associated_data_types {
+                Some(l) => v.name.loc.union(&l.location),
+                None => v.name.loc,
+              };
+              self.node(2, "variant", &loc);
+              self.id(3, &v.name, false);
+              if let Some(l) = &v.associated_data_types {
+                self.node(3, "tlist", &l.location);
+                for a in &l.annotations {
+                  self.annot(4, a);
+                }
+              }
+            }
+          }
+        }
+      }
+      if let Some(e) = t.extends_or_implements_nodes() {
+        self.node(1, "extends", &e.location);
+        for n in &e.nodes {
+          self.annot_id(2, "super", n);
+        }
+      }
+      let bodies: Vec<Option<&expr::E<()>>> = match t {
+        Toplevel::Class(c) => c.members.members.iter().map(|m| Some(&m.body)).collect(),
+        Toplevel::Interface(i) => i.members.members.iter().map(|_| None).collect(),
+      };
+      for (m, body) in t.members_iter().zip(bodies) {
+        // `decl.loc` of a class member spans the whole definition including the body
+        self.node(1, "member", &m.loc);
+        self.tparams(2, m.type_parameters.as_ref());
+        self.id(2, &m.name, false);
+        self.node(2, "params", &m.parameters.location);
+        for p in m.parameters.parameters.iter() {
+          self.node(3, "param", &p.name.loc.union(&p.annotation.location()));
+          self.id(4, &p.name, true);
+          self.annot(4, &p.annotation);
+        }
+        self.annot(2, &m.return_type);
+        if let Some(b) = body {
+          self.expr(2, b);
         }
       }
     }
   }
 }
 
+fn parse_and_walk(text: &str, heap: &mut Heap) -> (usize, Vec<String>, Vec<(Position, String, bool)>, Vec<Location>) {
+  let mut error_set = ErrorSet::new();
+  let module =
+    samlang_parser::parse_source_module_from_text(text, ModuleReference::DUMMY, heap, &mut error_set);
+  let syn = error_set.errors().iter().filter(|e| e.is_syntax_error()).count();
+  let mut o = Out { heap, items: Vec::new(), idents: Vec::new() };
+  o.module(&module);
+  let errs: Vec<Location> = error_set.errors().iter().map(|e| e.location).collect();
+  for l in &errs {
+    o.node(0, "error", l);
+  }
+  (syn, o.items, o.idents, errs)
+}
+
 fn walk(text: &str) -> String {
   let mut heap = Heap::new();
-  let mut error_set = ErrorSet::new();
-  let module = samlang_parser::parse_source_module_from_text(
-    text,
-    ModuleReference::DUMMY,
-    &mut heap,
-    &mut error_set,
-  );
-  let syn = error_set.errors().iter().filter(|e| e.is_syntax_error()).count();
-  let mut o = Out { heap: &heap, items: Vec::new() };
-  for imp in &module.imports {
-    o.node(0, "import", &imp.loc);
-    for m in &imp.imported_members {
-      o.id(1, "name", m);
+  let (syn, items, _, _) = parse_and_walk(text, &mut heap);
+  format!("syn={syn} {}", if items.is_empty() { "-".to_string() } else { items.join(";") })
+}
+
+// ------------------------------------------------------------------------------------------------
+
+struct Svc {
+  state: ServerState,
+  texts: HashMap<ModuleReference, String>,
+}
+
+fn mod_ref(heap: &mut Heap, dotted: &str) -> ModuleReference {
+  heap.alloc_module_reference_from_string_vec(dotted.split('.').map(|s| s.to_string()).collect())
+}
+
+impl Svc {
+  fn new() -> Svc {
+    let mut heap = Heap::new();
+    let mut sources: HashMap<ModuleReference, String> = HashMap::new();
+    for (m, s) in samlang_parser::builtin_std_raw_sources(&mut heap) {
+      sources.insert(m, s);
     }
-    o.node(1, "modpath", &imp.imported_module_loc);
-  }
-  for t in &module.toplevels {
-    o.node(0, "toplevel", &t.loc());
-    o.id(1, "name", t.name());
-    o.tparams(1, t.type_parameters());
-    if let Some(e) = t.extends_or_implements_nodes() {
-      o.node(1, "extends", &e.location);
-      for n in &e.nodes {
-        o.node(2, "super", &n.location);
+    let repo = std::env::var("SAMVERIF_REPO").unwrap_or_else(|_| "/repo".to_string());
+    if let Ok(rd) = std::fs::read_dir(format!("{repo}/tests")) {
+      let mut files: Vec<_> = rd.flatten().map(|e| e.path()).collect();
+      files.sort();
+      for p in files {
+        if p.extension().map(|e| e == "sam").unwrap_or(false) {
+          if let (Some(stem), Ok(text)) = (p.file_stem(), std::fs::read_to_string(&p)) {
+            let m = mod_ref(&mut heap, &format!("tests.{}", stem.to_string_lossy()));
+            sources.insert(m, text);
+          }
+        }
       }
     }
-    let bodies: Vec<Option<Location>> = match t {
-      Toplevel::Class(c) => c.members.members.iter().map(|m| Some(m.body.loc())).collect(),
-      Toplevel::Interface(i) => i.members.members.iter().map(|_| None).collect(),
+    let texts = sources.clone();
+    Svc { state: ServerState::new(heap, false, sources), texts }
+  }
+
+  fn loc_str(&self, l: &Location) -> String {
+    let name = l.module_reference.pretty_print(&self.state.heap);
+    let (inside, covered) = match self.texts.get(&l.module_reference) {
+      None => (false, None),
+      Some(t) => {
+        let lines: Vec<&str> = t.split('\n').collect();
+        let ok = |p: Position| {
+          (p.0 as usize) < lines.len() && (p.1 as usize) <= lines[p.0 as usize].len()
+        };
+        let inside = ok(l.start) && ok(l.end) && l.start <= l.end;
+        let covered = if inside && l.start.0 == l.end.0 && l.end.1 - l.start.1 <= 40 {
+          lines[l.start.0 as usize].as_bytes().get(l.start.1 as usize..l.end.1 as usize).map(|b| hex(b))
+        } else {
+          None
+        };
+        (inside, covered)
+      }
     };
-    for (d, body) in t.members_iter().zip(bodies) {
-      // `decl.loc` of a class member spans the whole definition including the body
-      o.node(1, "member", &d.loc);
-      o.tparams(2, d.type_parameters.as_ref());
-      o.id(2, "name", &d.name);
-      o.node(2, "params", &d.parameters.location);
-      for p in d.parameters.parameters.iter() {
-        o.node(3, "param", &p.name.loc.union(&p.annotation.location()));
-        o.id(4, "name", &p.name);
-        o.node(4, "annot", &p.annotation.location());
+    format!("{name}/{}/{}/{}", span(l), if inside { "in" } else { "out" }, covered.unwrap_or("-".into()))
+  }
+
+  fn run(&mut self, module: &str, text: &str) -> String {
+    let m = mod_ref(&mut self.state.heap, module);
+    let original = self.texts.get(&m).cloned();
+    self.state.update(vec![(m, text.to_string())]);
+    self.texts.insert(m, text.to_string());
+    let mut scratch_heap = Heap::new();
+    let (syn, _, idents, _) = parse_and_walk(text, &mut scratch_heap);
+    let nerr = self.state.get_errors(&m).len();
+    let mut items: Vec<String> = Vec::new();
+    let mut seen = std::collections::HashSet::new();
+    for (pos, name, local) in &idents {
+      if !seen.insert((pos.0, pos.1)) {
+        continue;
       }
-      o.node(2, "ret", &d.return_type.location());
-      if let Some(b) = &body {
-        o.node(2, "body", b);
+      let at = format!("{}.{}", pos.0, pos.1);
+      let hn = hex(name.as_bytes());
+      let d = samlang_services::query::definition_location(&self.state, &m, *pos);
+      items.push(format!(
+        "def@{at}:{hn}:{}={}",
+        if *local { "L" } else { "G" },
+        d.map(|l| self.loc_str(&l)).unwrap_or("none".into())
+      ));
+      let r = samlang_services::query::all_references(&self.state, &m, *pos);
+      items.push(format!(
+        "refs@{at}:{hn}:{}={}",
+        if *local { "L" } else { "G" },
+        if r.is_empty() { "none".to_string() } else { r.iter().map(|l| self.loc_str(l)).collect::<Vec<_>>().join(",") }
+      ));
+      let h = samlang_services::query::hover(&self.state, &m, *pos);
+      items.push(format!("hover@{at}={}", h.map(|h| self.loc_str(&h.location)).unwrap_or("none".into())));
+    }
+    if let Some(f) = samlang_services::query::folding_ranges(&self.state, &m) {
+      if !f.is_empty() {
+        items.push(format!("fold={}", f.iter().map(|l| self.loc_str(l)).collect::<Vec<_>>().join(",")));
       }
     }
+    let err_locs: Vec<Location> = self.state.get_errors(&m).iter().map(|e| e.location).collect();
+    for l in err_locs.iter().take(20) {
+      for a in samlang_services::rewrite::code_actions(&self.state, *l) {
+        let samlang_services::rewrite::CodeAction::Quickfix { edits, .. } = a;
+        items.push(format!(
+          "ca@{}={}",
+          span(l),
+          edits.iter().map(|(l, _)| self.loc_str(l)).collect::<Vec<_>>().join(",")
+        ));
+      }
+    }
+    // rename at (a sample of) local identifiers: the rewritten module must still parse
+    let mut renamed = 0;
+    for (pos, _, local) in &idents {
+      if !*local || renamed >= 6 {
+        continue;
+      }
+      renamed += 1;
+      let r = samlang_services::rewrite::rename(&mut self.state, &m, *pos, "renamedByVerif");
+      let verdict = match r {
+        None => "none",
+        Some(t) => {
+          let mut h = Heap::new();
+          let mut es = ErrorSet::new();
+          let _ = samlang_parser::parse_source_module_from_text(&t, ModuleReference::DUMMY, &mut h, &mut es);
+          if es.has_errors() { "syn" } else { "ok" }
+        }
+      };
+      items.push(format!("rename@{}.{}={verdict}", pos.0, pos.1));
+    }
+    // restore
+    match original {
+      Some(o) => {
+        self.state.update(vec![(m, o.clone())]);
+        self.texts.insert(m, o);
+      }
+      None => {
+        self.state.remove(&[m]);
+        self.texts.remove(&m);
+      }
+    }
+    format!("errs={nerr} syn={syn} {}", if items.is_empty() { "-".to_string() } else { items.join(";") })
   }
-  for e in error_set.errors() {
-    o.node(0, "error", &e.location);
-  }
-  format!("syn={syn} {}", if o.items.is_empty() { "-".to_string() } else { o.items.join(";") })
 }
 
 fn lex(text: &str) -> String {
@@ -127,6 +503,7 @@ fn lex(text: &str) -> String {
 
 fn main() {
   std::panic::set_hook(Box::new(|_| {}));
+  let mut svc: Option<Svc> = None;
   for_each_line(|line| {
     let t: Vec<&str> = line.split(' ').collect();
     match t[0] {
@@ -136,6 +513,20 @@ fn main() {
         match catch_unwind(AssertUnwindSafe(|| walk(&text))) {
           Ok(s) => s,
           Err(e) => format!("panic {}", hex(panic_msg(&e).as_bytes())),
+        }
+      }
+      "svc" if t.len() == 3 => {
+        let text = unhex_str(t[2]);
+        if svc.is_none() {
+          svc = Some(Svc::new());
+        }
+        let r = catch_unwind(AssertUnwindSafe(|| svc.as_mut().unwrap().run(t[1], &text)));
+        match r {
+          Ok(s) => s,
+          Err(e) => {
+            svc = None; // state may be inconsistent after a panic
+            format!("panic {}", hex(panic_msg(&e).as_bytes()))
+          }
         }
       }
       _ => "bad-op".to_string(),
